@@ -195,6 +195,13 @@ func cmdCheck(args []string) int {
 				tmo = 2
 			}
 			j.o.Result = solvePortfolio(file, tmo, true)
+			if j.o.Result.Status != "unsat" && j.o.Kind != "vacuity" && j.s.hasOpaque(j.o) {
+				// second attempt with the definitions of the opaque predicates revealed
+				first := j.o.Result.Secs
+				writeFile(file, j.s.queryWith(j.o, true))
+				j.o.Result = solvePortfolio(file, tmo, true)
+				j.o.Result.Secs += first
+			}
 			mu.Lock()
 			solverS += j.o.Result.Secs
 			mu.Unlock()
